@@ -155,6 +155,7 @@ type Listener struct {
 	ISNStep       uint32 `json:"isnStep,omitempty"`  // added per further connection (default 1<<20)
 	ServerSeq     uint32 `json:"serverSeq,omitempty"`
 	SynAckDelayUs int64  `json:"synAckDelayUs,omitempty"`
+	OptLayout     string `json:"optLayout,omitempty"`   // order of the SYN-ACK's options: ""(linux)|bsd|win|tsfirst|sacklast
 	SynAckDupUs   int64  `json:"synAckDupUs,omitempty"` // > 0: the SYN-ACK is seen a second time this much later (retransmission)
 	TruncTS       bool   `json:"truncTS,omitempty"`
 }
